@@ -445,6 +445,27 @@ WRONG = [
 ]
 
 
+# how an object of the other module can reach code compiled for vmod x what that code does with it
+CARRIERS = [
+    ("declared-result", "function fd() return vmod is begin return vmod2(5); end;", "fd()"),
+    ("conditional-result", "function fc(k) return vmod is begin if k then return vmod(1); end if; return vmod2(2); end;", "fc(false)"),
+    ("recursive-result", "function fr(n) return vmod is begin if n > 0 then return fr(n - 1); end if; return vmod2(1); end;", "fr(2)"),
+    ("undefined-result", "function fu() return undefined is begin return vmod2(5); end;", "fu()"),
+    ("variable-from-result", "function fd() return vmod is begin return vmod2(5); end; v = fd();", "v"),
+    ("typed-variable-from-result", "a:vmod; function fd() return vmod is begin return vmod2(5); end; a = fd();", "a"),
+    ("table-of-result", "function fd() return vmod is begin return vmod2(5); end; t = tab(1, fd());", "t.at(0)"),
+    ("tuple-of-result", "function fd() return vmod is begin return vmod2(5); end; u = tup(fd(), 1);", "u@1"),
+    ("table-result", "function ft() return table is begin return tab(1, vmod2(5)); end; tt = tab(1, vmod(1)); tt = ft();", "tt.at(0)"),
+    ("result-in-parentheses", "function fd() return vmod is begin return vmod2(5); end;", "(fd())"),
+    ("reverse-declared-result", "function fd2() return vmod2 is begin return vmod(5); end;", "fd2()"),
+]
+USES = ["zz = %s.get();", "print %s.mod();", "zz = %s.self().get();", "zz = %s.id();", "zz = fpassw(%s);", "b = vmod(%s);", "w = vmod(1); b = w.other(%s);",
+        "forall q in tab(1, %s) loop zz = q.get(); end loop;", 'zz = %s.add(5, "str", 2.5, true, raw("xy"));', "b = %s.make();"]
+for cname, setup, expr in CARRIERS:
+    for use in USES:
+        WRONG.append(("function fpassw(o:vmod) return integer is begin return o.get(); end; " + setup + " " + (use % expr), cname + ":" + use.split("%s")[1].strip(" ;()") or "use"))
+
+
 def wrongmod_gen():
     def gen():
         for n, (text, tag) in enumerate(WRONG):
@@ -494,6 +515,6 @@ def run(tier):
     rule = ("breadth-first search to depth %d over %d statements (construct, copy, overwrite, store in table/tuple, delete, pass, return, temporaries, "
             "chained self(), other(), copy constructor, INOUT, loop, block with raise, failing argument list, forall, make(), function result, callee "
             "keeping a reference, five-argument method) and 3 host events (purge working memory, clone, free clone); %d model-distinct states; each "
-            "history in its own process, followed by release of every context; 10 programs offering a vmod2 object where vmod was compiled" % (depth, len(STMTS), states))
+            "history in its own process, followed by release of every context; %d programs offering an object of the other module where vmod was compiled (10 direct + 11 carriers x 10 uses)" % (depth, len(STMTS), states, len(WRONG)))
     return finish(PROP, tier, total, check, rule, t0, extra={"states": states + total.evaluations, "bfs_states": states},
                   assumptions=["reference-count model: holders per object; destruction may be late but not early", "AddressSanitizer guards each object block"])
